@@ -1206,7 +1206,7 @@ def http_stream_exchange(S):
             return turn["producer"]
 
         H["Schema.empty@get"] = input_is_empty
-        return SObj(None, kind="Resolved", call_state=None, output_schema=SObj(None, kind="Schema", tag="out", empty=False), input_schema=SObj(None, kind="Schema", tag="in"), stream_id=token_sid)
+        return SObj(None, kind="Resolved", call_state=None, output_schema=SObj(None, kind="Schema", tag="out", empty=False), input_schema=SObj(None, kind="Schema", tag="in"), stream_id=token_sid, created_at=None, method_name="m")
 
     H["Cache.get"] = lambda S, cache, call_id, auth, *a, **kw: resolved_call() if S.choose(2) == 0 else None
     H["Cache.put"] = lambda S, cache, call_id, auth, resolved, *a, **kw: None
